@@ -1,5 +1,76 @@
-From Coq Require Import List NArith.
-From FV Require Import Mem.Shard Mem.Cache.
-Theorem c13_placeholder : usage (init_shard 5) = 0%N.
-Proof. reflexivity. Qed.
-Print Assumptions c13_placeholder.
+(* C13  Each entry leaves memory exactly once, with the right reason and disk hand-off.
+   Statements only; proofs are in Mem/ShardEvents.v. *)
+From Coq Require Import List NArith Bool.
+From FV Require Import Mem.Shard Mem.ShardRefs Mem.ShardThms Mem.ShardEvents.
+Import ListNotations.
+Open Scope N_scope.
+
+Lemma reach_evinv c cap ops s : good c -> run c (init_shard cap) ops = Some s -> EvInv c s.
+Proof. intros [Hc Ht] H. eapply EvInv_run; eauto; [apply Inv_init | apply EvInv_init]. Qed.
+
+(* an admitted (non-phantom) record is either findable, with no notification, or not findable,
+   with exactly one *)
+Theorem c13_once : forall c cap ops s i,
+  good c -> run c (init_shard cap) ops = Some s ->
+  (i < length (arena s))%nat -> rphantom (get_rec s i) = false ->
+  (indexed s i = true /\ event_count s i = 0%nat) \/ (indexed s i = false /\ event_count s i = 1%nat).
+Proof.
+  intros c cap ops s i Hg H Hi Hp. pose proof (reach_evinv c cap ops s Hg H) as HE.
+  destruct (indexed s i) eqn:E.
+  - left. split; [reflexivity|]. apply (ei_indexed c s HE). apply indexed_In. assumption.
+  - right. split; [reflexivity|]. apply (ei_left c s HE); auto. intros Hin. apply indexed_In in Hin. congruence.
+Qed.
+Print Assumptions reach_evinv.
+Print Assumptions c13_once.
+
+(* a phantom (filter-rejected / disk-only) record is never findable; it is notified Remove at
+   insertion and Evict when its last handle is dropped *)
+Theorem c13_phantom : forall c cap ops s i,
+  good c -> run c (init_shard cap) ops = Some s ->
+  (i < length (arena s))%nat -> rphantom (get_rec s i) = true ->
+  indexed s i = false /\ event_count s i = if N.eqb (get_ref s i) 0 then 2%nat else 1%nat.
+Proof.
+  intros c cap ops s i Hg H Hi Hp. pose proof (reach_evinv c cap ops s Hg H) as HE.
+  pose proof (reach_inv c cap ops s Hg H) as [HI _ _]. split.
+  - destruct (indexed s i) eqn:E; [|reflexivity]. exfalso.
+    apply (phantom_not_indexed s i HI Hp). apply indexed_In. assumption.
+  - apply (ei_phantom c s HE); assumption.
+Qed.
+Print Assumptions c13_phantom.
+
+(* the disk tier is offered exactly the records notified Evict, in the same order, each once;
+   without a pipe nothing is offered *)
+Theorem c13_pipe : forall c cap ops s,
+  good c -> run c (init_shard cap) ops = Some s ->
+  plog s = if piped c then evicted_ids (elog s) else [].
+Proof. intros c cap ops s Hg H. apply (ei_pipe c s). eapply reach_evinv; eauto. Qed.
+Print Assumptions c13_pipe.
+
+(* the reason matches what happened: the generic "leave" step is the only way a record gets out of
+   the index, and it logs the event of the operation performing it *)
+Theorem c13_reason_remove : forall c s k h i,
+  lookup k (idx s) = Some i ->
+  elog (remove c s k h) = elog s ++ [(EvRemove, i)] /\ plog (remove c s k h) = plog s.
+Proof. intros c s k h i Hl. unfold remove. rewrite Hl. split; reflexivity. Qed.
+Print Assumptions c13_reason_remove.
+
+Theorem c13_reason_evict : forall c s k i,
+  elog (evict_one c s k i) = elog s ++ [(EvEvict, i)] /\
+  plog (evict_one c s k i) = if piped c then plog s ++ [i] else plog s.
+Proof. intros c s k i. unfold evict_one, add_pipe. destruct (piped c); split; reflexivity. Qed.
+Print Assumptions c13_reason_evict.
+
+Theorem c13_reason_clear : forall c s,
+  elog (clear c s) = elog s ++ map (fun p : N * id => (EvClear, snd p)) (idx s) /\ plog (clear c s) = plog s.
+Proof.
+  intros c s. unfold clear.
+  destruct (ShardInv.fold_add_event_frame (idx s) s) as (_ & _ & _ & _ & _ & _ & _ & _ & P & E).
+  destruct (bug_clear c); split; assumption.
+Qed.
+Print Assumptions c13_reason_clear.
+
+Example c13_nonvacuous :
+  exists s, run (mkCfg false true false false) (init_shard 1)
+              [OInsert 0 1 1 0 false false 1 []; OInsert 1 2 1 1 false false 2 [0]; OInsert 1 3 1 1 false false 3 [1]] = Some s
+            /\ elog s = [(EvEvict, 0%nat); (EvEvict, 1%nat)] /\ plog s = [0%nat; 1%nat].
+Proof. eexists. split; [vm_compute; reflexivity|]. split; reflexivity. Qed.
